@@ -113,7 +113,7 @@ for pi, peer in enumerate(peers):
             if e is None: bad = 'not a database name'
             elif n in peer[cat]: bad = 'already advertised'
             elif (len(e) > 1 and e[1]) or (len(e) > 2 and e[2]): bad = 'carries a failure or warning'
-            elif cat == 'key' and ('-cert-' in n or n.startswith('sk-')): bad = 'certificate / security-key algorithm'
+            elif cat == 'key' and ('-cert-' in n or n.startswith('sk-') or '-sk-' in n): bad = 'certificate / security-key algorithm'
             elif cat == 'kex' and (n.startswith('ext-info-') or n.startswith('kex-strict-')): bad = 'pseudo algorithm'
             elif prod not in ('OpenSSH', 'Dropbear SSH', 'libssh', 'TinySSH'): bad = 'software not recognised'
             elif prod in PREFIX and avail(e, prod, ver) is not True: bad = 'not available in %%s %%s' %% (prod, ver)
